@@ -78,7 +78,7 @@ def build_branch(name, d, how, base, rnd):
         stmts.append(apm.insn(name, *ops, ("br", e)))
         stmts.append(apm.blk(".blkb", apm.num(max(0, d + 2))))
     elif how in ("filler", "local"):
-        lab = "target" if how == "filler" else rnd.choice(["1$", "7$", "12", "3", "100$"])
+        lab = "target" if how == "filler" else rnd.choice(["1$", "7$", "12", "3", "100$", "8", "9", "18", "89", "98$", "19"])
         ref = ("sym", lab) if how == "filler" else ("loc", lab)
         if d >= 0:
             br_index = len(stmts)
@@ -98,7 +98,7 @@ def build_branch(name, d, how, base, rnd):
             stmts.append(apm.insn(name, *ops, ("br", ref)))
     elif how == "localarith":
         # 'br 12+4': the first number of a compound branch operand is a local label (documented compatibility rule), the rest are numbers
-        lab = rnd.choice(["12", "10", "17", "100", "3", "7$", "77", "1"])
+        lab = rnd.choice(["12", "10", "17", "100", "3", "7$", "77", "1", "18", "9", "8$", "90"])
         if d >= 0:
             k = 2 * rnd.randrange(0, min(d, 12) // 2 + 1)
             br_index = len(stmts)
@@ -291,7 +291,22 @@ def gen_include_program(rnd, base):
     site = rnd.choice(["first", "last", "none"])      # where the base becomes known: at once, after everything, or never stated (default 1000)
     main = ([apm.link(apm.num(base))] if site == "first" else []) + [apm.blk(".blkb", apm.num(pre)), apm.label("ga", extern=True)]
     main += body(outer + inner, "host>any", rnd.randrange(0, 4), back=["ga"])
-    main += [apm.label("gb", extern=True), apm.include("inc.mac")]
+    main += [apm.label("gb", extern=True)]
+    loc = rnd.random() < 0.5
+    if loc:
+        # a local label of the including file ahead of the include; the included file has a local label of the same name; after the
+        # include the scope of 'gb' goes on: plain and repeated references to 7$ mean the one before the include
+        main += [apm.label("7$"), apm.insn("nop")]
+        inc[1:1] = [apm.label("7$"), apm.insn("nop")]
+    main += [apm.include("inc.mac")]
+    if loc:
+        for _ in range(rnd.randrange(1, 4)):
+            st = rnd.choice([apm.insn(rnd.choice(["br", "bne"]), ("br", ("loc", "7$"))), apm.insn("clr", ("rel", ("loc", "7$"))),
+                             apm.insn("sob", ("reg", rnd.randrange(6)), ("br", ("loc", "7$"))), apm.insn("jmp", ("reld", ("loc", "7$")))])
+            if rnd.random() < 0.6:
+                st = apm.repeat(apm.num(rnd.choice([2, 3])), [st] + ([apm.insn("nop")] if rnd.random() < 0.5 else []))
+            main.append(st)
+            tags.append("host>local-before-include" + ("|repeated" if st.k == "repeat" else ""))
     main += body(outer + inner, "host>any", rnd.randrange(0, 4), back=["ga", "gb", "ia", "ib"])
     main += [apm.label("gc", extern=True), apm.data(".word", apm.num(0))]
     if site == "last":
